@@ -14,8 +14,8 @@ Finding: `emitted_rq_wf_counterexample` - the document the real compiler emits f
 (and the one for `sort b | aggregate .. | derive {r = row_number this}`) fails the scope clause: a `sort` is carried past
 `select` / `aggregate` into the `sort` of later Takes and windows (semantic/resolver/flatten.rs).  `EmittedWf` below is therefore
 proved for the model only, whose guard (c) excludes exactly this; the monitor of tools/props/c16.py checks every real RQ
-against `wfRq` and lists the classes as known findings (a third one, sort-leaks-into-subpipeline, is a `sort` copied into the
-pipeline of a join/append argument), and reports `wfRqLax` (stale *sort* columns tolerated) next to it.
+against `wfRq` and lists the classes as known findings (a third one, sort-leaks-into-subpipeline - a `sort` copied into the
+pipeline of a join/append argument - was repaired by 147decc, see `leaked_sort_document_rejected`), and reports `wfRqLax` (stale *sort* columns tolerated) next to it.
 -/
 import PrqlModel.Lemmas.Rq
 import PrqlModel.Lemmas.Lower
@@ -291,14 +291,17 @@ def groupSelectHidesPartition : RelationalQuery :=
     .select [0, 2], .select [1, 0, 2]] [cB, cA, cC]
 
 /-- the scope clause fails on documents the real compiler emits.  Known findings stale-sort-after-select and
-stale-sort-after-aggregate: nothing else is wrong with the document (`wfRqLax`).  Known finding sort-leaks-into-subpipeline:
-a table uses a column id that only the enclosing pipeline defines (also `wfRqLax` fails: the document is not closed).
-Known finding group-pipeline-select-hides-partition-column: a Select of the flattened group pipeline cuts the partition column off. -/
+stale-sort-after-aggregate: nothing else is wrong with the document (`wfRqLax`).  Known finding group-pipeline-select-hides-partition-column: a Select of the flattened group pipeline cuts the partition column off. -/
 theorem emitted_rq_wf_counterexample :
     wfRq staleSortSelect = .error (.notVisible 1) ∧ wfRqLax staleSortSelect = .ok () ∧
     wfRq staleSortAggregate = .error (.notVisible 1) ∧ wfRqLax staleSortAggregate = .ok () ∧
-    wfRq leakedSort = .error (.notVisible 1) ∧ wfRqLax leakedSort = .error (.notVisible 1) ∧
     wfRq groupSelectHidesPartition = .error (.notVisible 1) ∧ wfRqLax groupSelectHidesPartition = .error (.notVisible 1) := by decide
+
+/-- the document prqlc emitted for `from t | sort {b} | append (from t | take 2..3)` BEFORE the repair 147decc (the sort of the
+enclosing pipeline copied into the argument pipeline) is rejected by the monitor; the check verifies on every run that the
+compiler no longer emits it (a `fixed` finding suppresses nothing) -/
+theorem leaked_sort_document_rejected :
+    wfRq leakedSort = .error (.notVisible 1) ∧ wfRqLax leakedSort = .error (.notVisible 1) := by decide
 
 /-! ## T2: what the back end may rely on -/
 
